@@ -401,6 +401,9 @@ pub struct CaseResult {
     /// (key, what, index of the op, expected, observed)
     pub oracle_failures: Vec<(String, String, usize, String, String)>,
     pub panicked: Option<String>,
+    /// (sum of ns, count) of rejected `POST /{db}` requests that presented a token, by whether the
+    /// addressed database carries a binding (timing is measured, never proved)
+    pub reject_ns: [(u128, u64); 2],
 }
 
 impl CaseResult {
@@ -464,7 +467,17 @@ pub fn run_case(lines: &[String], driver: Option<&std::path::Path>, tables: &Tab
             }
             Op::Req(r) => {
                 let Some(w) = world.as_mut() else { continue };
+                let t0 = std::time::Instant::now();
                 let resp = w.exec(r);
+                let dt = t0.elapsed().as_nanos();
+                if resp.status == 401
+                    && r.auth.is_some()
+                    && let Target::Db { name, .. } = &r.target
+                {
+                    let k = orc.has_binding(name) as usize;
+                    res.reject_ns[k].0 += dt;
+                    res.reject_ns[k].1 += 1;
+                }
                 let canon = wire::canon_impl(r, &resp);
                 res.hit(&format!("status:{}", resp.status));
                 res.hit(&format!("route:{}", r.route_class()));
@@ -646,6 +659,7 @@ fn main() {
     });
     let results = results.into_inner().unwrap();
     let mut shrunk_keys: BTreeSet<String> = BTreeSet::new();
+    let mut reject_ns = [(0u128, 0u64); 2];
     for (i, r) in &results {
         let (name, lines) = &cases[*i];
         for canon in &r.nontrivial {
@@ -658,6 +672,10 @@ fn main() {
             report.hit_n(k, *v);
         }
         report.model_compared += r.model_compared;
+        for k in 0..2 {
+            reject_ns[k].0 += r.reject_ns[k].0;
+            reject_ns[k].1 += r.reject_ns[k].1;
+        }
         if let Some(p) = &r.panicked {
             report.oracle_failure("panic", &format!("the harness or the code under test panicked in {name}: {p}"), lines, "no panic", p);
         }
@@ -683,6 +701,12 @@ fn main() {
             let k = key.clone();
             let small = shrink_failure(lines, *idx, |cr| cr.oracle_failures.iter().any(|f| f.0 == k), None, &tables);
             report.oracle_failure(key, &format!("{what} ({name}, op {idx})"), &small, exp, obs);
+        }
+    }
+    for (k, label) in [(0, "mean_ns_401_database_without_binding"), (1, "mean_ns_401_database_with_binding")] {
+        if reject_ns[k].1 > 0 {
+            report.measured.insert(label.into(), json!({"mean_ns": (reject_ns[k].0 / reject_ns[k].1 as u128) as u64, "n": reject_ns[k].1,
+                "note": "in-process wall time incl. harness overhead; timing equalisation is only measured, not modelled or proved"}));
         }
     }
     report.exhaustive = false;
